@@ -287,6 +287,9 @@ func replaceEntities(b []byte, i int, entitiesMap map[string][]byte, revEntities
 			j++
 			c := 0
 			for ; j < len(b) && (b[j] >= '0' && b[j] <= '9' || b[j] >= 'a' && b[j] <= 'f' || b[j] >= 'A' && b[j] <= 'F'); j++ {
+				if 10000 <= c {
+					continue // too large to be replaced already, further digits must not make it wrap around
+				}
 				if b[j] <= '9' {
 					c = c<<4 + int(b[j]-'0')
 				} else if b[j] <= 'F' {
